@@ -98,13 +98,7 @@ Theorem C01_tunnel_transparent : forall (cipher : keyclass -> codec) (comp : cod
     (exists ws, st_write (sems cipher comp bb y) cs = Some ws /\
        st_read (sems cipher comp ba x) (st_flat ws) = st_flat cs /\
        forall w, st_prefix w (st_flat ws) -> st_prefix (st_read (sems cipher comp ba x) w) (st_flat cs)).
-Proof.
-  intros cipher comp Hc Hz p Hin. destruct (C01_stacks_mirror p Hin) as (sa & sb & Ha & Hb & H).
-  exists sa, sb. split; [exact Ha|]. split; [exact Hb|]. intros fe fc la lb ba bb cs Hba Hbb.
-  destruct (H fe fc la lb) as (x & y & Hx & Hy & He & _). exists x, y. split; [exact Hx|]. split; [exact Hy|]. split.
-  - exact (mirror_transparent cipher comp Hc Hz ba bb x y cs Hba Hbb He).
-  - exact (mirror_transparent cipher comp Hc Hz bb ba y x cs Hbb Hba (eq_sym He)).
-Qed.
+Proof. exact (fun cipher comp Hc Hz p Hin => tunnel_transparent_of_mirror cipher comp Hc Hz stack_sites p (C01_stacks_mirror p Hin)). Qed.
 Print Assumptions C01_tunnel_transparent.
 
 (* ---- sniff and replay ---- *)
@@ -181,12 +175,7 @@ Theorem C01_close_propagates : forall W, all_inner W = true -> forall sched,
    0 <= j_remaining st <= 6 /\ (j_remaining st = 0 <-> j_all_done st = true)) /\
   (j_triggered st = true ->
    let st' := j_run W j_drain st in j_all_done st' = true /\ 1 <= j_baseA st' /\ 1 <= j_baseB st').
-Proof.
-  intros W Hall sched st. assert (Hr : reachable W st) by (exists sched; reflexivity).
-  split; [exact (close_once W Hall st Hr)|]. split; [exact (done_closed W Hall st Hr)|].
-  split; [exact (close_not_stuck W Hall st Hr)|]. split; [exact (close_progress W Hall st Hr)|].
-  exact (close_propagates_bounded W Hall st Hr).
-Qed.
+Proof. exact close_propagates_all. Qed.
 Print Assumptions C01_close_propagates.
 
 (* the defect that was repaired (limiter close function closing the reassigned variable) is exactly a
